@@ -11,6 +11,7 @@ use std::sync::atomic::{AtomicU64, Ordering};
 use std::sync::{Arc, RwLock};
 
 pub mod clock;
+pub mod probe;
 pub mod timer;
 
 /// Which of the (up to three) mio channels of a slot a message travels on.
